@@ -398,4 +398,6 @@ def main(argv=None):
 
 
 if __name__ == "__main__":
+    # checks do `from vlib import HarnessError`: make that the class main() catches
+    sys.modules.setdefault("vlib", sys.modules["__main__"])
     sys.exit(main())
